@@ -15,8 +15,10 @@ CONSTANTS
   Vers = {0}
   FixH4 = TRUE
   SysZeroWrites = FALSE
+  FilterReorgInBatch = TRUE
 INIT RInit
 NEXT RNext
 VIEW rview
-INVARIANTS TypeOK RevertNeverFails ReadsAgree HeadAgrees NoOrphanLogs Canon IdxCanon IdxSound
+INVARIANTS TypeOK RevertNeverFails ReadsAgree HeadAgrees NoOrphanLogs Canon IdxCanon IdxSound FilterCoversChain
+PROPERTIES RRestartIsNoOp
 CHECK_DEADLOCK FALSE
